@@ -169,9 +169,45 @@ func Param(name string, def int) int {
 // natively the views are called with the height directly).
 func SetTermHeight(h int) {}
 
-// OutputLines / ResetOutput: captured fmt.Print* output (engine only).
-func OutputLines() int { return -1 }
-func ResetOutput()     {}
+// ResetOutput starts capturing what the code under test prints with
+// fmt.Print*; OutputLines returns the number of newlines printed since.
+// (Engine: the stubbed fmt.Print* log; native: os.Stdout redirected to a file.)
+var (
+	RealStdout = os.Stdout
+	outFile    *os.File
+)
+
+func ResetOutput() {
+	RestoreOutput()
+	f, err := os.CreateTemp("", "verif-out-")
+	if err != nil {
+		panic(err)
+	}
+	outFile = f
+	os.Stdout = f
+}
+
+func OutputLines() int {
+	if outFile == nil {
+		return 0
+	}
+	outFile.Sync()
+	data, err := os.ReadFile(outFile.Name())
+	if err != nil {
+		panic(err)
+	}
+	return strings.Count(string(data), "\n")
+}
+
+// RestoreOutput ends the capture (native only; called by the replay driver).
+func RestoreOutput() {
+	if outFile != nil {
+		os.Stdout = RealStdout
+		outFile.Close()
+		os.Remove(outFile.Name())
+		outFile = nil
+	}
+}
 
 // Choose forks n ways (0..n-1) without involving the solver.
 func Choose(n int) int {
